@@ -27,19 +27,7 @@ NSLOTS = {("pubsub", 1): 6, ("pubsub", 2): 8, ("event", 1): 4, ("event", 2): 6, 
 # fix: commit in /repo and an entry in known_findings.json (matched by the same key).  Until then
 # the check prints CANDIDATE-DEFECT for them (with a replay file) instead of VIOLATION.  Remove a
 # key here as soon as it is adjudicated; anything not listed (and not a known finding) is a VIOLATION.
-PENDING_CANDIDATES = {
-    "node:details-dir-left-when-port-outlives-node":
-        "the node's directory <root>/nodes/<node id>/ is left behind (empty) whenever the LAST object to go is a port or "
-        "something that keeps a port's shared state alive (publisher, subscriber, sample, loan, notifier, listener, client, "
-        "server, request/response objects, writer, reader, entry handles) instead of the Node or the service handle: every port "
-        "(shared) state declares `port_tag` as its LAST field (on purpose: crash-cleanup marker, see the comment in "
-        "port/subscriber.rs), i.e. after the field that holds the last SharedNode (sender / receiver / service_state), so "
-        "SharedNodeState::drop -> remove_node runs while the port tag file still exists: remove_node lists only the *.details "
-        "storages of the directory, Directory::remove_empty then fails (not empty -> NodeCleanupFailure::InternalError, reported "
-        "only by warn!), and the port tag is removed afterwards, leaving the empty directory for ever (Node::list ignores it; "
-        "names stay reusable). ipc variants only (local has no directories). Typical trigger: `struct App { node, service, port }` "
-        "(fields drop in declaration order, node first). Minimal order: event, 1 node, slots node,svc,notifier,listener = 0,1,2,3",
-}
+PENDING_CANDIDATES = {}   # all candidates adjudicated: see known_findings.json
 
 
 def classify(pattern, detail):
